@@ -107,6 +107,10 @@ def _patch_clock() -> None:
 _patch_clock()
 
 
+class HarnessFault(RuntimeError):
+    """Raised on purpose by a callback of the harness that plays a faulty application (a listener that raises)."""
+
+
 class Deadlock(RuntimeError):
     pass
 
@@ -258,6 +262,13 @@ class FakeTransport(asyncio.DatagramTransport):
         if self.closed:
             net.emit(self.sock.host.name, 'send_closed', sock=self.sock.index, dst=list(addr[:2]), len=len(data))
             return
+        if addr is not None and addr[0] in net.unreachable:
+            net.emit(self.sock.host.name, 'send_failed', sock=self.sock.index, dst=list(addr[:2]), len=len(data))
+            if net.on_send_failed_hook:
+                net.on_send_failed_hook(self.sock, bytes(data), addr)
+            # what asyncio's datagram transport does with an OSError of sendto(): no exception, the protocol is told
+            self.protocol.error_received(OSError(101, 'Network is unreachable'))
+            return
         net._on_send(self.sock, bytes(data), addr)
 
     def close(self) -> None:
@@ -353,6 +364,8 @@ class Net:
         self.on_send_hook: Optional[Callable[[dict, bytes], None]] = None
         self.on_recv_hook: Optional[Callable[[dict, bytes], None]] = None
         self.on_recv_done_hook: Optional[Callable[[dict], None]] = None
+        self.on_send_failed_hook: Optional[Callable[[Any, bytes, Any], None]] = None
+        self.unreachable: set = set()      # destination addresses to which a send fails (ENETUNREACH)
         self._creating: Optional[Host] = None
         self.max_events = 120000
         self.aborted: Optional[str] = None
